@@ -341,7 +341,7 @@ class Intervals:
                     return meet(ty_range(last["ty"]), v) if v is not None else ty_range(last["ty"])
                 return (0, 1)
         nd = [e for e in pl["proj"] if e["k"] != "deref"]
-        if len(nd) >= 3 and nd[0]["k"] == "downcast" and nd[0]["variant"] in ("Some", "Ok") and nd[1]["k"] == "field" and nd[1]["idx"] == 0 \
+        if len(nd) >= 2 and nd[0]["k"] == "downcast" and nd[0]["variant"] in ("Some", "Ok") and nd[1]["k"] == "field" and nd[1]["idx"] == 0 \
                 and all(e["k"] == "field" for e in nd[2:]):
             # `((x as Some).0).k`: x is only ever assigned Some(..) / None literals: join over the payloads of the Some sites
             ds = fn.whole_defs(pl["local"])
